@@ -400,10 +400,10 @@ theorem carries_of_Carries (s : Scene) (w : W) (md : Model) (n : GNode) (h : Car
   have hmeshes : w.doc.meshes[mi]? = some gm := a3
   unfold carries
   simp only [h1, h2, h3, h4, beq_self_eq_true, Bool.true_and, hmo, a2, hmeshes, b2, b4, b5, Bool.and_eq_true]
-  refine ⟨⟨⟨⟨⟨?_, ?_⟩, ?_⟩, ?_⟩, ?_⟩, ?_⟩
+  refine ⟨⟨⟨⟨⟨⟨?_, ?_⟩, ?_⟩, ?_⟩, ?_⟩, ?_⟩, ?_⟩
   · simp only [List.all_eq_true]
     intro a ha
-    obtain ⟨i, hi⟩ := b6.2.1.2 hkeys a ha
+    obtain ⟨i, hi⟩ := (b6.2.1.2 hkeys).1 a ha
     obtain ⟨i', hi'⟩ := lookup_of_mem _ _ _ hi
     rw [hi']
     obtain ⟨a', ha', hkey, hacc⟩ := b6.1 _ (lookup_mem _ _ _ hi')
@@ -417,6 +417,7 @@ theorem carries_of_Carries (s : Scene) (w : W) (md : Model) (n : GNode) (h : Car
     intro ka hka
     obtain ⟨a', ha', hkey, _⟩ := b6.1 ka hka
     exact ⟨a', ha', hkey.symm⟩
+  · rw [(b6.2.1.2 hkeys).2]; exact beq_self_eq_true _
   · rw [decodeAt_of_accIs b6.2.2]; simp
   · simp
   · rw [b3]; simp [a5]
